@@ -33,6 +33,37 @@ type World struct {
 	Backend string // "cdb" | "rdb1" | "rdb2"
 	Pool    *Pool  // optional: compiled generations are copied from templates
 	seq     int
+	alias   map[int]string // cdb paths served straight from the (immutable) template
+	made    bool
+}
+
+func (w *World) mkdir() error {
+	if w.made {
+		return nil
+	}
+	w.made = true
+	return os.MkdirAll(w.Dir, 0o755)
+}
+
+// Cleanup removes what the world created.
+func (w *World) Cleanup() {
+	if w.made {
+		os.RemoveAll(w.Dir)
+	}
+}
+
+// Alias makes path p of a cdb world refer to the compiled template itself (no file is
+// created); only for paths that are never updated on disk.
+func (w *World) Alias(p int, f File) error {
+	t, err := w.Pool.Template(w.Backend, f)
+	if err != nil {
+		return err
+	}
+	if w.alias == nil {
+		w.alias = map[int]string{}
+	}
+	w.alias[p] = t
+	return nil
 }
 
 // Pool compiles every (backend, generation) once with the real compiler; worlds copy
@@ -136,6 +167,9 @@ func (w *World) Rocks() bool { return w.Backend != "cdb" }
 
 // Path maps a model path number to a file system path.
 func (w *World) Path(p int) string {
+	if t, ok := w.alias[p]; ok {
+		return t
+	}
 	if w.Backend == "cdb" {
 		return filepath.Join(w.Dir, fmt.Sprintf("p%d.cdb", p))
 	}
@@ -225,6 +259,9 @@ func (w *World) tmp(suffix string) string {
 // Create builds a database with content f at path p with the real compiler.
 // An unreadable file is garbage (cdb) / a directory that is no database (rocksdb).
 func (w *World) Create(p int, f File) error {
+	if err := w.mkdir(); err != nil {
+		return err
+	}
 	dst := w.Path(p)
 	if !f.OK {
 		if w.Backend == "cdb" {
